@@ -104,6 +104,9 @@ def _case(draw):
         args = []
     steps = []
     cur_sig = sig0
+    # later documents tagged !merge at the root: a function node below it still replaces arguments / drops them on a target
+    # change, because function nodes carry their own explicit delete flag (lists are not generated then: they would inherit "merge")
+    under_merge = draw(st.integers(0, 3)) == 0
     prio_mode = draw(st.integers(0, 4)) == 0
     # pin mode: some arguments of the first node are tagged !force; every later step changes the target, which must drop them
     pin_mode = (not prio_mode) and draw(st.integers(0, 5)) == 0
@@ -111,6 +114,8 @@ def _case(draw):
     for i in range(draw(st.sampled_from([0, 0, 1, 1, 2, 3, 4]) if not prio_mode else st.sampled_from([1, 2, 3]))):
         what = draw(st.just('node-other') if prio_mode else st.sampled_from(['node-other', 'str']) if pin_mode else
                     st.sampled_from(['map', 'map', 'list', 'str', 'node-other', 'node-same', 'node-other-merge', 'node-same-merge']))
+        if under_merge and what == 'list':
+            what = 'node-same'
         if what == 'map':
             steps.append({'what': 'map', 'args': draw(_args(cur_sig))})
         elif what == 'list':
@@ -133,7 +138,7 @@ def _case(draw):
         pins = draw(st.lists(st.integers(0, len(args) - 1), min_size=1, max_size=2, unique=True))
         if not steps:
             steps.append({'what': 'str', 'sig': draw(_sig(9))})
-    return {'kind': kind, 'sig': sig0, 'form': form, 'args': args, 'steps': steps, 'prio0': prio0, 'pins': pins}
+    return {'kind': kind, 'sig': sig0, 'form': form, 'args': args, 'steps': steps, 'prio0': prio0, 'pins': pins, 'under_merge': under_merge}
 
 
 def strategy():
@@ -201,7 +206,10 @@ def docs(case):
             n = tdoc.sc('vfrec.' + s['sig'])
         else:
             n = _fn_node(case['kind'], s['sig'], 'map', s['args'], merge=s['merge'], mdstyle=s['mdstyle'], prio=s.get('prio', 0))
-        out.append(tdoc.mp([('f', n)]))
+        root = tdoc.mp([('f', n)])
+        if case.get('under_merge'):
+            root['del'] = False
+        out.append(root)
     return out
 
 
@@ -264,6 +272,8 @@ def run_case(case):
         labels.add('priorities-on-function-nodes')
     if case.get('pins'):
         labels.add('force-pinned-arguments-then-retarget')
+    if case.get('under_merge') and case['steps']:
+        labels.add('steps-below-a-!merge-root')
     for s in case['steps']:
         labels.add('step=' + s['what'] + ('-merge' if s.get('merge') else ''))
     nontrivial = len(case['steps']) >= 2
